@@ -166,21 +166,16 @@ def oracle0(op, args, obs):
         m = a % b
         return want_int(m)
     if op == "**":
-        thru = "pow-through-float64-inexact-beyond-2^53"
-        lossy = abs(a) > 2 ** 53 or abs(b) > 2 ** 53
+        # exact integer power when it fits, a float otherwise (repaired by the int_power fix: commit)
+        if b >= 0:
+            if abs(a) <= 1 or b < 64:
+                r = a ** b
+                if in64(r):
+                    return want_int(r)
+            return None if obs[0] == "float" else ("other", "float (a ** b does not fit in 64 bits)")     # value: Coq model (port of math.Pow)
         if a in (1, -1):
-            return want_int(a if b % 2 else 1, thru if lossy else "other")      # (+-1)^k is an exact int for every k
-        if b < 0:
-            if obs[0] == "float":
-                return None
-            return ("pow-negative-exponent-underflow-gives-int-zero" if obs == ("int", 0) and a != 0 else "other", "float")
-        if b == 0 or a == 0:
-            return want_int(a ** b)
-        if b <= 64:
-            r = a ** b
-            if in64(r):
-                return want_int(r, thru if abs(r) > 2 ** 53 or lossy else "other")
-        return None if obs[0] == "float" else ("pow-overflow-not-float", "float")
+            return want_int(a if b % 2 else 1)                 # the only int bases with an int reciprocal
+        return None if obs[0] == "float" else ("other", "float (negative exponent)")
     if op == ".+":
         return want_int(wrap(a + b))
     if op == ".-":
@@ -208,17 +203,14 @@ def oracle0(op, args, obs):
         return want_int(min(a, b))
     if op == "max":
         return want_int(max(a, b))
-    thru = "int-preserving-math-function-goes-through-float64"
     if op == "roundm":
-        if obs[0] != "int":
-            return ("int-ness-not-preserved", "int")
         if b == 0:
-            return None if obs[0] in ("error",) else ("roundm-zero-modulus-gives-garbage-int", "an error value (or Inf/NaN float)")
-        q2, r2 = divmod(2 * abs(a) + abs(b), 2 * abs(b))       # round half away from zero of |a|/|b|
-        k = q2 if (a < 0) == (b < 0) else -q2
-        r = k * b
-        big = max(abs(a), abs(b)) > 2 ** 26 or not in64(r)
-        return want_int(r, thru if big else "other") if in64(r) else (None if obs[0] == "float" else (thru, "float (result does not fit)"))
+            return None if obs == ("float", NANBITS) else ("other", "float NaN (round(x/0)*0)")
+        q2 = (2 * abs(a) + abs(b)) // (2 * abs(b))              # round half away from zero of |a|/|b|
+        r = (-1 if a < 0 else 1) * q2 * abs(b)                  # the nearest multiple of b, with the sign of a
+        if in64(r):
+            return want_int(r)
+        return None if obs[0] == "float" else ("other", "float (nearest multiple does not fit in 64 bits)")
     if op == "neg":
         return want_int(wrap(-a))
     if op == "pos":
@@ -228,12 +220,10 @@ def oracle0(op, args, obs):
     if op == "bitcount":
         return want_int(bin(a % 2 ** 64).count("1"))
     if op in ("abs", "ceil", "floor", "round", "sgn"):
-        if obs[0] != "int":
-            return ("int-ness-not-preserved", "int")
         r = {"abs": abs(a), "ceil": a, "floor": a, "round": a, "sgn": (a > 0) - (a < 0)}[op]
         if not in64(r):
-            return (thru, "float 2^63 or an error value")
-        return want_int(r, thru if abs(a) > 2 ** 53 else "other")
+            return want_float(2.0 ** 63)                       # abs(-2^63) overflows to float like the arithmetic operators
+        return want_int(r)
     if op in TERN:
         m = v[2]
         if op == "mexp" and b < 0:
@@ -243,36 +233,13 @@ def oracle0(op, args, obs):
         if m < 0:
             return None                    # only "no crash" is claimed for a negative modulus (panic handled above)
         exact = {"madd": lambda: (a + b) % m, "msub": lambda: (a - b) % m, "mmul": lambda: (a * b) % m, "mexp": lambda: pow(a, b, m)}[op]()
-        if obs == ("int", exact):
-            return None
-        inter = {"madd": a + b, "msub": a - b, "mmul": a * b, "mexp": max(abs(a), m) ** 2}[op]
-        return ("mod-op-reduces-after-64-bit-wrap" if not in64(inter) else "other", "int %d" % exact)
+        return want_int(exact)
     return ("unknown-operator", "")
 
 
 # ------------------------------------------------------------------ what today's code answers inside the known defect classes
 # A witness belongs to a known class only when the implementation gives exactly the answer the recorded defect gives;
 # any other wrong answer on the same operands is reported as class "other".
-def f2i_amd64(x):
-    if x != x or x in (math.inf, -math.inf):
-        return MIN
-    n = int(x)
-    return n if in64(n) else MIN
-
-
-def go_round(q):
-    if q != q or q in (math.inf, -math.inf):
-        return q
-    t = float(math.trunc(q))
-    return t + math.copysign(1.0, q) if abs(q - t) >= 0.5 else t
-
-
-def py_mlrmod(a, m):
-    r = abs(a) % abs(m)
-    r = -r if a < 0 else r
-    return wrap(r + m) if r < 0 else r
-
-
 def legacy_value(op, v):
     """observation today's kernels give on int operands v, for the operators with a recorded defect; None = not modelled here"""
     a = v[0]
@@ -280,23 +247,6 @@ def legacy_value(op, v):
     if op == "*":
         c = fl(a) * fl(b)
         return ("float", fbits(c)) if abs(c) > float(T1024) or not in64(a * b) else ("int", a * b)
-    if op in ("abs", "ceil", "floor", "round"):
-        return ("int", f2i_amd64(abs(fl(a)) if op == "abs" else fl(a)))
-    if op == "sgn":
-        return ("int", (a > 0) - (a < 0))
-    if op == "roundm":
-        x, m = fl(a), fl(b)
-        return ("int", f2i_amd64(go_round(fdiv(x, m)) * m))
-    if op in ("madd", "msub", "mmul") and v[2] != 0:
-        return ("int", py_mlrmod(wrap({"madd": a + b, "msub": a - b, "mmul": a * b}[op]), v[2]))
-    if op == "mexp" and v[2] != 0 and b >= 0:
-        ap, c, u, m = a, py_mlrmod(1, v[2]), b, v[2]
-        while u:
-            if u & 1:
-                c = py_mlrmod(wrap(c * ap), m)
-            u >>= 1
-            ap = py_mlrmod(wrap(ap * ap), m)
-        return ("int", c)
     return None
 
 
@@ -317,11 +267,6 @@ def oracle(op, args, obs):
 # "model_stale_for".  Anything else that differs is reported.
 PROBES = {
     "times-float-although-product-fits-within-1024-of-2^63": ("*", [I(MAX), I(1)]),
-    "pow-through-float64-inexact-beyond-2^53": ("**", [I(3), I(39)]),
-    "pow-negative-exponent-underflow-gives-int-zero": ("**", [I(2), I(-1075)]),
-    "mod-op-reduces-after-64-bit-wrap": ("mmul", [I(2 ** 32), I(2 ** 32), I(7)]),
-    "int-preserving-math-function-goes-through-float64": ("floor", [I(2 ** 53 + 1)]),
-    "roundm-zero-modulus-gives-garbage-int": ("roundm", [I(7), I(0)]),
 }
 
 
@@ -335,23 +280,6 @@ def footprints(op, args):
         r, c = v[0] * v[1], fl(v[0]) * fl(v[1])
         if in64(r) and abs(c) > float(T1024):
             out.add("times-float-although-product-fits-within-1024-of-2^63")
-    if op in TERN:
-        inter = {"madd": v[0] + v[1], "msub": v[0] - v[1], "mmul": v[0] * v[1], "mexp": max(abs(v[0]), abs(v[2])) ** 2}[op]
-        if not in64(inter):
-            out.add("mod-op-reduces-after-64-bit-wrap")
-    if op == "**":
-        a, b = v
-        if b < 0:
-            out.add("pow-negative-exponent-underflow-gives-int-zero")
-        if abs(a) > 2 ** 53 or abs(b) > 2 ** 53 or (abs(a) >= 2 and b > 64) or (0 <= b <= 64 and abs(a ** b) > 2 ** 53):
-            out.add("pow-through-float64-inexact-beyond-2^53")
-    if op in ("abs", "ceil", "floor", "round", "sgn") and abs(v[0]) > 2 ** 53:
-        out.add("int-preserving-math-function-goes-through-float64")
-    if op == "roundm":
-        if v[1] == 0:
-            out.add("roundm-zero-modulus-gives-garbage-int")
-        elif max(abs(v[0]), abs(v[1])) > 2 ** 26:
-            out.add("int-preserving-math-function-goes-through-float64")
     return out
 
 
@@ -393,14 +321,54 @@ def float_grid(ctx, nrand):
     return out
 
 
-# witnesses of the defects repaired by fix: commits (7910d392d 9dd59d176 948308289 0499ffd56 94ff40520 83ceb0713 bbf6f604b):
+# witnesses of the defects repaired by fix: commits (round 1: 7910d392d 9dd59d176 948308289 0499ffd56 94ff40520 83ceb0713 bbf6f604b;
+# round 2: int_power, exact modular ops, int-preserving functions, roundm -- see KNOWN_FINDINGS.txt):
 # always generated, always judged by the oracle AND always compared with the Coq model
 ANCHORS = [("%", [I(-10), I(5)]), ("%", [I(6), I(-3)]), ("%", [I(0), I(-1)]), ("*", [I(16440948372290153), I(561)]),
            ("*", [I(-16440948372290153), I(561)]), ("*", [I(89547301328687144), I(-103)]), ("*", [I(-1), I(MIN)]), ("*", [I(MIN), I(-1)]),
            ("+", [I(MIN), I(MIN)]), ("-", [I(0), I(MIN)]), ("/", [I(MIN), I(-1)]), ("//", [I(MIN), I(-1)]), ("./", [I(1), I(0)]),
            ("./", [I(0), I(0)]), ("./", [I(-7), I(0)]), ("./", [I(MIN), I(-1)]), ("madd", [I(5), I(3), I(0)]), ("msub", [I(5), I(3), I(0)]),
            ("mmul", [I(5), I(3), I(0)]), ("mexp", [I(5), I(3), I(0)]), ("mexp", [I(10), I(1), I(3)]), ("mexp", [I(5), I(0), I(1)]),
-           ("mexp", [I(-7), I(1), I(5)]), ("mexp", [I(5), I(0), I(-1)])]
+           ("mexp", [I(-7), I(1), I(5)]), ("mexp", [I(5), I(0), I(-1)]),
+           # round 2
+           ("**", [I(3), I(39)]), ("**", [I(7), I(22)]), ("**", [I(-1), I(2 ** 53 + 1)]), ("**", [I(MAX), I(1)]), ("**", [I(2), I(-1075)]),
+           ("**", [I(39), I(-255)]), ("**", [I(2), I(63)]), ("**", [I(-2), I(63)]), ("**", [I(2), I(62)]), ("**", [I(2), I(64)]), ("**", [I(2), I(-1)]),
+           ("**", [I(-1), I(-3)]), ("**", [I(1), I(MIN)]), ("**", [I(0), I(-1)]), ("**", [I(0), I(0)]), ("**", [I(MIN), I(1)]), ("**", [I(MIN), I(2)]),
+           ("**", [I(3037000500), I(2)]), ("**", [I(-3037000500), I(2)]), ("**", [I(3037000499), I(2)]), ("**", [I(2097152), I(3)]), ("**", [I(-2097152), I(3)]),
+           ("mmul", [I(2 ** 32), I(2 ** 32), I(7)]), ("madd", [I(2 ** 62), I(2 ** 62), I(3)]), ("mexp", [I(2 ** 32), I(3), I(3)]),
+           ("msub", [I(MIN), I(MAX), I(5)]), ("mmul", [I(MIN), I(MIN), I(MAX)]), ("mexp", [I(MAX - 1), I(MAX), I(MAX)]), ("mmul", [I(MAX), I(MAX), I(-7)]),
+           ("ceil", [I(MAX)]), ("abs", [I(-(2 ** 53) - 1)]), ("floor", [I(2 ** 53 + 1)]), ("round", [I(MAX)]), ("round", [I(MIN)]), ("sgn", [I(MIN)]),
+           ("abs", [I(MIN)]), ("abs", [I(MIN + 1)]), ("roundm", [I(2 ** 53 + 1), I(1)]), ("roundm", [I(7), I(0)]), ("roundm", [I(0), I(0)]),
+           ("roundm", [I(7), I(2)]), ("roundm", [I(-7), I(2)]), ("roundm", [I(7), I(-2)]), ("roundm", [I(MAX), I(2)]), ("roundm", [I(MIN), I(MIN)]),
+           ("roundm", [I(MIN + 1), I(2)]), ("roundm", [I(MIN), I(3)]), ("roundm", [I(MAX), I(MAX)]), ("roundm", [I(1), I(MIN)]), ("roundm", [I(2 ** 62), I(MIN)])]
+
+
+def repaired_grid(ctx, full):
+    """the kernels repaired in round 2 on their own boundary grid: operands beyond 2^53 and next to 2^63, exponents 0/1/2/62/63/64,
+    bases 0, +-1, +-2, +-3, -2^63, negative and extreme moduli"""
+    R = []
+    bases = [0, 1, -1, 2, -2, 3, -3, 7, -7, 10, -10, 15, 2 ** 31, -(2 ** 31), 3037000499, 3037000500, -3037000500, 2 ** 32, 2 ** 53 + 1, -(2 ** 53) - 1,
+             2 ** 62, -(2 ** 62), MAX, MIN, MIN + 1, MAX - 1]
+    exps = [0, 1, 2, 3, 20, 31, 39, 40, 41, 61, 62, 63, 64, 65, 2 ** 53 + 1, 2 ** 53 + 2, MAX, MAX - 1, -1, -2, -3, -62, -63, -64, -1074, -1075, MIN, MIN + 1]
+    for a in bases:
+        for b in exps:
+            R.append(("**", [I(a), I(b)]))
+    big = [MIN, MIN + 1, -(2 ** 62) - 1, -(2 ** 53) - 1, -7, -1, 0, 1, 7, 2 ** 53 + 1, 2 ** 62 + 1, MAX - 1, MAX]
+    mods = [1, -1, 2, -2, 3, -3, 7, 10, 2 ** 26 + 1, 2 ** 53 + 1, -(2 ** 53) - 1, 2 ** 62, 2 ** 62 + 1, MAX, MIN, MAX - 1, MIN + 1, 0]
+    for a in big + [2 ** 53 + 2, 3 * 2 ** 61, -3 * 2 ** 61, 5, -5, 3, -3, 15, -15]:
+        for m in mods:
+            R.append(("roundm", [I(a), I(m)]))
+    tm = [1, 2, 3, 7, -1, -3, -7, 2 ** 32 + 1, 3037000500, 2 ** 62 + 1, MAX, MAX - 1, MIN, MIN + 1, -(2 ** 62)]
+    for op in TERN:
+        bs = big if op != "mexp" else [0, 1, 2, 3, 62, 63, 64, 65, 2 ** 53 + 1, MAX]
+        for a in big:
+            for b in bs:
+                for m in tm:
+                    R.append((op, [I(a), I(b), I(m)]))
+    for op in ("abs", "ceil", "floor", "round", "sgn"):
+        for a in big + [2 ** 53 + 2, -(2 ** 53) - 2, 2 ** 63 - 1025, -(2 ** 63) + 1025]:
+            R.append((op, [I(a)]))
+    return R
 
 
 def gen_cases(ctx):
@@ -503,6 +471,10 @@ def gen_cases(ctx):
             cases.append((op, [F(fb), I(5), I(7)]))
             cases.append((op, [I(5), I(3), F(fb)]))
     ctx.dist("ternary_modular", len(cases) - n0)
+    # (8) the kernels repaired in round 2 (int_power, exact modular ops, integer abs/ceil/floor/round/sgn/roundm) on their own grid
+    R = repaired_grid(ctx, full)
+    cases += R
+    ctx.dist("repaired_kernel_grid", len(R))
     return cases
 
 
@@ -538,7 +510,7 @@ def run(ctx):
                        "pow with a non-integer exponent other than +-0.5 (needs math.Exp/Log) is outside the model: only kind float / no crash is compared",
                        "the other ten kinds of the disposition matrices (absent, empty, error ...) belong to C08"]
     forbidden_gate(ctx, ["Base", "C07"])
-    ok, why = check_props(ctx, "C07/Props.v", ["C07/ProofsBits.vo", "C07/ProofsMod.vo", "C07/ProofsWit.vo", "C07/ProofsMixed.vo", "C07/Harness.vo"])
+    ok, why = check_props(ctx, "C07/Props.v", ["C07/ProofsBits.vo", "C07/ProofsInt.vo", "C07/ProofsPow.vo", "C07/ProofsMod.vo", "C07/ProofsPanic.vo", "C07/ProofsWit.vo", "C07/ProofsMixed.vo", "C07/Harness.vo"])
     cases = gen_cases(ctx)
     # dedupe, keep order
     seen, uniq = set(), []
@@ -608,6 +580,12 @@ def run(ctx):
         chosen += [i for i, _ in lst[:(40 if ctx.tier == 'thorough' else 12)]]
     anchors = set((op, tuple(args)) for op, args in ANCHORS)
     chosen += [i for i, (op, args) in enumerate(cases) if (op, tuple(args)) in anchors]
+    # the repaired-kernel grid: every ** / roundm / unary case, a sample (thorough: all) of the ternary ones
+    rg = set((op, tuple(args)) for op, args in repaired_grid(ctx, ctx.tier == "thorough"))
+    rgi = [i for i, (op, args) in enumerate(cases) if (op, tuple(args)) in rg]
+    rg_t = [i for i in rgi if cases[i][0] in TERN]
+    chosen += [i for i in rgi if cases[i][0] not in TERN]
+    chosen += rg_t if ctx.tier == "thorough" else rng.sample(rg_t, min(len(rg_t), 1500))
     chosen = sorted(set(chosen))
     if repaired:
         chosen = [i for i in chosen if not (footprints(cases[i][0], cases[i][1]) & repaired)]
